@@ -40,7 +40,11 @@ def expected_of(case):
 def items_of(case):
     items = list(case["items_list"]) if case.get("items_list") is not None else list(range(case["items"]))
     alias = case.get("alias") or {}
-    return [sim_c08.ALIASES[alias[str(i)]] if str(i) in alias else i for i in items]
+    out = [sim_c08.ALIASES[alias[str(i)]] if str(i) in alias else i for i in items]
+    if case.get("stream") == "fresh":
+        # a lazily generated stream of freshly built objects that nobody keeps (each may be allocated where the previous one was)
+        return ([v] for v in out)
+    return out
 
 def calls_of(case):
     """the first call, and - when the case re-uses the Multiprocessor object - the second one (items numbered from 100)"""
@@ -55,7 +59,7 @@ def combined_filter(case, cls, delay=0.0):
     for c in calls_of(case):
         raising |= set(c["raising"]); fan.update({int(k): v for k, v in c["fan"].items()}); kinds.update({int(k): v for k, v in c.get("kinds", {}).items()})
         alias.update(c.get("alias") or {})
-    return cls(raising, fan, delay, kinds, alias)
+    return cls(raising, fan, delay, kinds, alias, case.get("slow_start", 0.0))
 
 def is_injected(case, exc):
     """exc is the error the filter raised for one of the raising items (type and message)"""
@@ -128,7 +132,7 @@ def drive(case, results):
 
 class RecordingTagFilter(TagFilter):
     def filter(self, item):
-        STATE.setdefault("handled", []).append((sim_c08.who(), item))
+        STATE.setdefault("handled", []).append((sim_c08.who(), item[0] if isinstance(item, list) else item))
         return super().filter(item)
 
 def run_with(case, sched):
@@ -148,7 +152,7 @@ def run_with(case, sched):
         raise Violation(f"the call hangs: no participant can run, blocked={sched.blocked} | case={info} trace={sched.trace[-25:]} where={sched.blocked_stacks}")
     require(len(results) == len(calls_of(case)) and all(r[2].get("returned") for r in results), "caller did not return", case=info)
     for i, (call, outs, res) in enumerate(results):
-        mine = set(items_of(call))
+        mine = set(v[0] if isinstance(v, list) else v for v in items_of(call))
         h = None if (case["n"] == 1 and case["m"] == 0) else [(w, it) for w, it in handled if it in mine]
         if "close_exc" in res:
             raise Violation(f"call #{i + 1}: closing the abandoned output raised {type(res['close_exc']).__name__}: {res['close_exc']} (abandoning must terminate cleanly) | case={info}") from res["close_exc"]
@@ -190,7 +194,8 @@ def sim_cases(draw, tier):
         alias["0"] = draw(st.sampled_from(sorted(sim_c08.ALIASES)))
         if items > 2 and draw(st.booleans()):
             alias[str(draw(st.integers(1, items - 1)))] = draw(st.sampled_from([a for a in ("None", "empty-str", "empty-tuple") if a != alias["0"]]))
-    return {"n": n, "m": m, "items": items, "raising": raising, "fan": fan, "abandon": abandon, "kinds": kinds, "then": then, "alias": alias,
+    stream = "fresh" if draw(st.integers(0, 4)) == 0 else "list"
+    return {"n": n, "m": m, "items": items, "raising": raising, "fan": fan, "abandon": abandon, "kinds": kinds, "then": then, "alias": alias, "stream": stream,
             "choices": draw(st.lists(st.integers(0, 5), max_size=250 if tier == "quick" else 500)),
             # which runnable participant runs once the drawn choices are used up: 0 = the earliest spawned (caller, loader, ...),
             # larger values let late participants (callbacks, replacement workers) overtake - e.g. the loader finishes last
@@ -213,6 +218,7 @@ def classes(case):
     if case["m"] and case["items"] % case["m"] == 0 and case["items"]: out.append("items-multiple-of-m")
     if case["fan"]: out.append("fanout")
     if case.get("alias"): out.append("falsy-or-None-items")
+    if case.get("stream") == "fresh": out.append("stream-of-fresh-objects")
     if case.get("then"):
         out.append("second-call-on-same-object")
         if case["raising"]: out.append("second-call-after-filter-error")
@@ -257,7 +263,27 @@ def run_real(case):
             if attempt == 2:
                 raise Violation(f"the real multi-process call did not return within {case.get('watchdog', 90)} s in three consecutive attempts | case={case}")
 
+def run_exit(case):
+    """The scenario runs in an interpreter of its own (vlib/child_c08.py): filter some items on worker processes, take
+    `abandon` outputs, close the output, leave main(). The interpreter must END (exit code 0) - workers that are left blocked
+    must not keep the program alive."""
+    import subprocess
+    env = dict(os.environ)
+    p = subprocess.Popen([sys.executable, "-W", "ignore", "-m", "vlib.child_c08", str(case["n"]), str(case["m"]), str(case["items"]), str(case["abandon"])],
+                         cwd=os.environ.get("VERIF_HOME", "."), env=env, stdout=subprocess.PIPE, stderr=subprocess.PIPE, text=True, start_new_session=True)
+    try:
+        out, err = p.communicate(timeout=case.get("watchdog", 60))
+    except subprocess.TimeoutExpired:
+        import signal
+        try: os.killpg(p.pid, signal.SIGKILL)
+        except Exception: pass
+        p.communicate()
+        raise Inconclusive("watchdog: the interpreter that abandoned an output did not end")
+    require(p.returncode == 0 and "CLOSED-OK" in out, "the program that abandoned an output did not end cleanly", rc=p.returncode, out=out[-300:], err=err[-600:], case=case)
+
 def run_real_once(case):
+    if case.get("via") == "exit":
+        return run_exit(case)
     import multiprocessing as mp
     from coba.pipes.multiprocessing import Multiprocessor
     from coba.multiprocessing import CobaMultiprocessor
@@ -337,6 +363,14 @@ def real_fixed(tier):
     # more buffered output (> 64 KiB per worker) than the queue's pipe holds while the consumer stalls for 4 s after the first output:
     # workers that are done must still deliver everything they produced
     yield dict(base, n=2, m=0, items=3, raising=[], kinds={}, via="pipes", fan={"0": 4000, "1": 4000, "2": 1}, pause=4.0, watchdog=45)
+    # a lazily generated stream of freshly built items
+    yield dict(base, n=2, m=0, items=40, raising=[], kinds={}, via="pipes", stream="fresh")
+    yield dict(base, n=2, m=3, items=25, raising=[], kinds={}, via="coba", fan={str(i): 1 for i in range(25)}, stream="fresh")
+    # the first worker needs 12 s before it is up (slow imports / a slow __setstate__ / a loaded machine): the call just takes longer
+    yield dict(base, n=2, m=0, items=4, raising=[], kinds={}, via="pipes", slow_start=12.0)
+    # after an abandoned output the PROGRAM must still be able to end (a separate interpreter runs the scenario and exits)
+    yield dict(base, n=2, m=0, items=200, raising=[], kinds={}, via="exit", abandon=1)
+    yield dict(base, n=3, m=2, items=100, raising=[], kinds={}, via="exit", abandon=3)
     # the filter's own AttributeError / ImportError must reach the caller as such
     yield dict(base, n=2, m=0, items=4, raising=[1], kinds={"1": "AttributeError"}, via="pipes")
     yield dict(base, n=2, m=1, items=4, raising=[3], kinds={"3": "ImportError"}, via="coba", fan={str(i): 1 for i in range(4)})
@@ -350,8 +384,8 @@ SUBCHECKS = [
     Sub(name="pb", run=run_pb, enumerate=pb_enumerate, nontrivial=lambda c: len(c["preemptions"]) >= 1, exhaustive=True,
         quick_shards=4, quick_budget_s=50, thorough_budget_s=1500,
         what="complete enumeration of all schedules with <= 1 preemption (thorough: <= 2 for the smallest) of small configurations (n<=3, items<=5, raising subsets, abandonment)"),
-    Sub(name="real_fixed", run=run_real, enumerate=real_fixed, nontrivial=lambda c: True, exhaustive=False, quick_shards=12, thorough_shards=12,
-        quick_budget_s=60, what="twelve fixed real-process cases run every time (incl. CobaMultiprocessor with one process and a positive maxtasksperchild, streams whose first item is None / falsy, and a consumer that stalls while finished workers hold > 64 KiB of buffered outputs): a worker dying by os._exit mid-item for three (n, m) shapes - the call must terminate without duplicated outputs - and a second call on the same object after a filter error"),
+    Sub(name="real_fixed", run=run_real, enumerate=real_fixed, nontrivial=lambda c: True, exhaustive=False, quick_shards=17, thorough_shards=17,
+        quick_budget_s=60, what="seventeen fixed real-process cases run every time (incl. CobaMultiprocessor with one process and a positive maxtasksperchild, streams whose first item is None / falsy, and a consumer that stalls while finished workers hold > 64 KiB of buffered outputs): a worker dying by os._exit mid-item for three (n, m) shapes - the call must terminate without duplicated outputs - and a second call on the same object after a filter error"),
     Sub(name="real", run=run_real, strategy=real_cases, nontrivial=nontrivial, classes=classes, quick=24, thorough=640,
         quick_shards=8, thorough_shards=16, quick_budget_s=60, thorough_budget_s=1200,
         what="real spawned workers via Multiprocessor (incl. read_wait) and CobaMultiprocessor; same oracle; OS schedules sampled"),
